@@ -26,6 +26,11 @@ func c14Child(job map[string]any) map[string]any {
 	json.Unmarshal(b, &ops)
 	ep, _ := job["epoch"].(float64)
 	os.Setenv("SOURCE_DATE_EPOCH", fmt.Sprintf("%d", int64(ep)))
+	if job["warm"] == true {
+		// "regardless of ... process": the second execution happens in a process that has done other FAT work
+		// before (another volume, a directory grown to several clusters and emptied again)
+		fatExec(fatCfg{Kind: "fat16", Size: 5 << 20, Names: "plain", Repro: true}, []fatOp{{A: "Mkdir", P: "D"}, {A: "Create", P: "D/A"}, {A: "Churn", P: "D", K: 60}, {A: "Churn", P: "", K: 30}}, false, false)
+	}
 	evs, err := fatExec(cfg, ops, true, false)
 	if err != nil {
 		return map[string]any{"out": "error", "detail": err.Error()}
@@ -41,7 +46,7 @@ func c14Child(job map[string]any) map[string]any {
 func init() { childRoles["c14"] = c14Child }
 
 func C14(c *core.Ctx) {
-	c.Rule = "FAT: case = (FAT type, size, SOURCE_DATE_EPOCH class {0, 315532799 (pre-1980), odd second, 2107+}, call sequence from FatTree_Gen (BFS depth 2 incl. negative calls; thorough: depth 3 sample + walks)), executed in two separate processes > 2.1 s apart on volumes at different start offsets, SHA-256 of the volume range compared after every call; tables: every PartTable tuple written twice and rewritten after being read; non-trivial = every case (distinct key = config|epoch|sequence)"
+	c.Rule = "FAT: case = (FAT type, size, SOURCE_DATE_EPOCH class {0, 315532799 (pre-1980), odd second, 2107+}, call sequence from FatTree_Gen (BFS depth 2 incl. negative calls; thorough: depth 3 sample + walks)), executed in two separate processes > 2.1 s apart (the second one has done other FAT work before: another volume, a directory grown and emptied) on volumes at different start offsets, SHA-256 of the volume range compared after every call; tables: every PartTable tuple written twice and rewritten after being read; non-trivial = every case (distinct key = config|epoch|sequence)"
 	c.Assumptions = []string{"SHA-256 (first 8 bytes) of the volume's byte range stands for byte identity", "second process starts after the first has finished plus 2.2 s"}
 	// design-level: the self-composition model holds for all clock schedules; and the leaky
 	// variant is found (binding self-test of the model)
@@ -125,7 +130,7 @@ func C14(c *core.Ctx) {
 			}
 			ep := epochs[(bi+pi)%len(epochs)]
 			jobsA = append(jobsA, map[string]any{"cfg": p.a, "ops": ops, "epoch": ep})
-			jobsB = append(jobsB, map[string]any{"cfg": p.b, "ops": ops, "epoch": ep})
+			jobsB = append(jobsB, map[string]any{"cfg": p.b, "ops": ops, "epoch": ep, "warm": true})
 			metas = append(metas, meta{pi, ep, ops})
 		}
 	}
